@@ -9,6 +9,7 @@ import pyglove as pg
 ])
 class Node(pg.Object):
   """Generic tree node: an Any field, a List field and a free-form Dict field."""
+  allow_symbolic_assignment = True
 
 
 @pg.members([
@@ -28,3 +29,21 @@ class Leaf:
 
   def __repr__(self):
     return f'Leaf({self.tag})'
+
+  def __eq__(self, other):
+    return isinstance(other, Leaf) and other.tag == self.tag
+
+  def __ne__(self, other):
+    return not self.__eq__(other)
+
+  def __hash__(self):
+    return hash(('Leaf', self.tag))
+
+
+@pg.members([
+    ('a', pg.typing.Int()),
+    ('child', pg.typing.Any(default=None)),
+])
+class Req(pg.Object):
+  """Object with a required field (for partial values)."""
+  allow_symbolic_assignment = True
